@@ -108,7 +108,7 @@ theorem curve_faithful {pa : Para} {sl : Option ℝ} {anisFit dir : Bool} {varSa
   · intro v h1 h2 h3
     rw [hv, h1]
     rw [e]; simp [curveTarget, h1, h2, h3, tiedNug]
-  · rw [e]
+  · rw [e]; simp [curveTarget]
   · intro h1; rw [e]; simp [curveTarget, h1]
   · intro xs; simp [curveOut, vario]
 
@@ -126,6 +126,21 @@ theorem r2_noise_free (dir : Bool) (xs : List ℝ) (s : St ℝ) :
     r2Score c dir xs (curveOut c dir xs s) s = 1 := r2_self c dir xs s
 
 /-! ### the whole call -/
+
+/-- **`_pre_para` honours the selection**: it keeps the model inside its bounds, produces one flag per optional
+    argument, deselects the nugget whenever a sill is constrained, and marks as "not fitted" every parameter the
+    caller deselected (`name=False`) or fixed (`name=value`). -/
+theorem pre_para_honours_selection {pre : Pre ℝ} (h : prePara c s0 sel sill anis = .ok pre) :
+    (checkAll c s0 = true → checkAll c pre.st = true) ∧
+    pre.para.opt.length = pre.st.opt.length ∧
+    (pre.sill.isSome = true → pre.para.nug = false) ∧
+    (∀ p, (deselected sel).contains p = true → paraGet pre.para p = false) := prePara_ok h
+
+/-- **`_pre_para` and the sill**: with a constrained sill and the variance not fitted, `_pre_para` itself leaves
+    `variance + nugget = sill`. -/
+theorem pre_para_sill {pre : Pre ℝ} {sl : ℝ} (hf : ∀ l o, c.fac l o ≠ 0)
+    (h : prePara c s0 sel sill anis = .ok pre) (hs : pre.sill = some sl) (hv : pre.para.var = false) :
+    pre.st.var c + pre.st.nug = sl := prePara_sill_sum hf h hs hv
 
 /-- the optional arguments keep their number through all curve evaluations -/
 theorem opt_length_script {pa : Para} {sl : Option ℝ} {anisFit dir : Bool} {varSave : ℝ} {xs : List ℝ}
@@ -198,9 +213,10 @@ theorem dict_eq_model_plain (hf : ∀ l o, c.fac l o = 1)
   obtain ⟨e, ed, _⟩ := postFitting_ok hpost (by rw [hlen, opt_length_script hrun])
   refine ⟨?_, by rw [ed]; rfl, by rw [ed]; rfl, by rw [ed]; rfl, by rw [ed, hdir]; rfl⟩
   rw [ed]
-  simp only [postDict, St.var, hf, mul_one]
-  rw [e]
-  cases pre.para.var <;> simp [postTarget, hf]
+  simp only [postDict]
+  cases hv : pre.para.var
+  · simp only [Bool.false_eq_true, if_false]; rw [e]; simp [St.var, postTarget, hv, hf]
+  · simp only [if_true]; rw [e]; simp [St.var, postTarget, hv, hf]
 
 /-- the state after the call when the optimiser's last evaluation was at `popt` (and not punished): it is the
     state of that evaluation; `sp` is the state before it, reached from `_pre_para`'s state by the earlier
@@ -289,7 +305,7 @@ theorem untouched_plain (hf : ∀ l o, c.fac l o = 1)
       rw [p5 hd]
       cases pre.para.len
       · simp
-      · simpa using hwf
+      · simpa [AnisWF] using hwf
   obtain ⟨p1, p2, p3, p4, p5⟩ := hP1
   refine ⟨?_, ?_, ?_, ?_, ?_⟩
   · intro hv; rw [e]; simp [St.var, postTarget, hv, hf, p1 hv]
@@ -307,7 +323,7 @@ theorem untouched_plain (hf : ∀ l o, c.fac l o = 1)
     rw [p5 hd]
     cases pre.para.len
     · simp
-    · simpa using hwf
+    · simpa [AnisWF] using hwf
 
 /-- **untouched_partial**: any class with non-vanishing variance factor, provided the optimiser's last
     evaluation was at `popt` (and not punished). -/
@@ -345,7 +361,7 @@ theorem untouched_partial {init : List (List ℝ)} (hf : ∀ l o, c.fac l o ≠ 
       rw [p5 hd]
       cases pre.para.len
       · simp
-      · simpa using hwf
+      · simpa [AnisWF] using hwf
   have hPsp : P sp := by
     refine runScript_induct (P := P) ?_ hinit ⟨fun _ => rfl, fun _ _ => rfl, fun _ _ => rfl, fun _ => rfl⟩
     intro t a t' ht hPt
@@ -358,7 +374,6 @@ theorem untouched_partial {init : List (List ℝ)} (hf : ∀ l o, c.fac l o ≠ 
   rw [hst]
   simp only [St.var, curveTarget, hv, Bool.false_eq_true, ↓reduceIte]
   rw [var_div_mul (hf _ _)]
-  rfl
 
 /-! ### the sill -/
 
@@ -373,7 +388,7 @@ theorem sill_exact_partial {init : List (List ℝ)} {sl : ℝ} (hf : ∀ l o, c.
   rw [hsl] at hs
   have hn : pre.para.nug = false := hnug (by rw [hs]; rfl)
   have hv : r.st.var c = if pre.para.var then popt.getD 0 0 else pre.st.var c := by
-    rw [hst]; simp only [St.var, curveTarget, zero_real]; rw [var_div_mul (hf _ _)]; rfl
+    rw [hst]; simp only [St.var, curveTarget, zero_real]; rw [var_div_mul (hf _ _)]
   cases hvar : pre.para.var
   · -- variance not fitted: the nugget was never touched, `_pre_para` made the sum right
     have hnugsp : sp.nug = pre.st.nug := by
@@ -427,10 +442,139 @@ theorem recovers_partial {init : List (List ℝ)}
   have hy' : y = curveOut c r.dir r.xdata r.st := by
     simp only [Option.some.injEq] at hy; exact hy.symm
   refine ⟨hy', ?_⟩
-  rw [hr2, ← hdir, ← hx]
+  rw [hr2, ← hx, ← hdir]
   conv_lhs => rw [hy']
   exact r2_self c r.dir r.xdata r.st
 
 end thms
+
+/-! ## concrete scripted-optimiser witnesses (computed on `Rat` by kernel evaluation of the model)
+
+  The same witnesses are replayed on the implementation by `vlib/props/C10.py` (`directed`): real scipy runs
+  show `var + nugget - sill ≈ -2e-8` (D9a) and `dict["var"] ≠ model.var` for the TPL classes (D9b). -/
+
+section witnesses
+
+/-- default bounds of `CovModel`: var, len_scale, anis in (0, ∞), nugget in [0, ∞) -/
+def wBndOpen : Bnd Rat := ⟨.fin 0, .pinf, false, false⟩
+def wBndNug : Bnd Rat := ⟨.fin 0, .pinf, true, false⟩
+
+/-- a 1-d class without optional arguments and without variance factor; triangular correlation -/
+def wPlain : Cfg Rat :=
+  { dim := 1, latlon := false, rescale := 1, varB := wBndOpen, lenB := wBndOpen, nugB := wBndNug,
+    anisB := wBndOpen, optB := [], fac := fun _ _ => one,
+    corr := fun len _ r => if 1 - r / len < 0 then 0 else 1 - r / len }
+
+/-- the same class with a TPL-like variance factor `var = var_raw * (len_scale² + 1)` -/
+def wFac : Cfg Rat := { wPlain with fac := fun len _ => len * len + 1 }
+
+def wS0 : St Rat := { varRaw := 1, len := 1, nug := 0, anis := [], opt := [] }
+def wIG : IG Rat := { dflt := 0, badName := false, var := none, len := none, nug := none, anis := none, opt := [] }
+
+/-- D9a: `fit_variogram(x, y, sill=2, len_scale=False)`; the optimiser evaluates the curve at var = 1 and
+    returns popt = [3/2] -/
+def wSillRun : Except Err (Result Rat) :=
+  fit wPlain wS0 [(.len, .flag false)] (.value 2) (.flag true) wIG .none true [1, 2] [1, 2] [[1]] [3 / 2]
+
+def wSillCheck : Bool :=
+  match wSillRun with
+  | .ok r => !decide (r.st.var wPlain + r.st.nug = 2)
+  | .error _ => false
+
+/-- **the full sill statement is false** of the code as it is: var = 3/2 from popt, nugget = 2 − 1 from the last
+    evaluation, so `var + nugget = 5/2 ≠ 2` (defect D9a, `fit:last-evaluation-state:fixed-sill-var-only`). -/
+theorem not_sill_exact_full : ¬ sill_exact_full Rat := by
+  intro h
+  have hw : wSillCheck = true := by decide +kernel
+  unfold wSillCheck at hw
+  split at hw
+  · rename_i r hr
+    have h2 := h wPlain wS0 [(.len, .flag false)] 2 (.flag true) wIG .none [1, 2] [1, 2] [[1]] [3 / 2] r
+      (fun _ _ => rfl) (by decide +kernel) hr
+    simp [h2] at hw
+  · cases hw
+
+theorem wFac_ne_zero : ∀ (l : Rat) (o : List Rat), wFac.fac l o ≠ zero := by
+  intro l _
+  show l * l + 1 ≠ ((0 : Nat) : Rat)
+  have := mul_self_nonneg l
+  simp only [Nat.cast_zero]
+  linarith
+
+/-- D9b: `fit_variogram(x, y, var=False)` on a class with variance factor; the optimiser evaluates the curve at
+    (len_scale, nugget) = (2, 0) and returns popt = [1, 0] -/
+def wFacRun : Except Err (Result Rat) :=
+  fit wFac wS0 [(.var, .flag false)] .none (.flag true) wIG .none true [1, 2] [1, 2] [[2, 0]] [1, 0]
+
+def wDictCheck : Bool :=
+  match wFacRun with
+  | .ok r => !decide (r.dict.var = r.st.var wFac)
+  | .error _ => false
+
+/-- **the full dict statement is false** of the code as it is: `dict["var"] = 2` (read while the model still had
+    the last evaluation's length scale) but `model.var = 4/5` (defect D9b, `fit:last-evaluation-state:tpl-var-deselected`). -/
+theorem not_dict_eq_model_full : ¬ dict_eq_model_full Rat := by
+  intro h
+  have hw : wDictCheck = true := by decide +kernel
+  unfold wDictCheck at hw
+  split at hw
+  · rename_i r hr
+    have h2 := h wFac wS0 [(.var, .flag false)] .none (.flag true) wIG .none [1, 2] [1, 2] [[2, 0]] [1, 0] r
+      wFac_ne_zero (by decide +kernel) hr
+    simp [h2.1] at hw
+  · cases hw
+
+def wUntCheck : Bool :=
+  match wFacRun, prePara wFac wS0 [(.var, .flag false)] SillArg.none (AnisArg.flag true) with
+  | .ok r, .ok pre => !decide (r.st.var wFac = pre.st.var wFac) && !pre.para.var
+  | _, _ => false
+
+/-- **the full untouched statement is false** of the code as it is: the deselected variance 2 ends as 4/5
+    (defect D9b). -/
+theorem not_untouched_full : ¬ untouched_full Rat := by
+  intro h
+  have hw : wUntCheck = true := by decide +kernel
+  unfold wUntCheck at hw
+  split at hw
+  · rename_i r pre hr hpre
+    have h2 := h wFac wS0 [(.var, .flag false)] .none (.flag true) wIG .none [1, 2] [1, 2] [[2, 0]] [1, 0] r pre
+      wFac_ne_zero (by decide +kernel) hr hpre
+    simp only [Bool.and_eq_true, Bool.not_eq_eq_eq_not, Bool.not_true, decide_eq_false_iff_not] at hw
+    exact hw.1 (h2.1 hw.2)
+  · cases hw
+
+/-! hypotheses of the `_partial` theorems are satisfiable (same witnesses, last evaluation = popt):
+    a successful run whose script ends in popt, not punished, with a constrained sill / a deselected variance -/
+
+def okAnd (e : Except Err (Result Rat)) (p : Result Rat → Bool) : Bool :=
+  match e with
+  | .ok r => p r
+  | .error _ => false
+
+theorem okAnd_spec {e : Except Err (Result Rat)} {p : Result Rat → Bool} (h : okAnd e p = true) :
+    ∃ r, e = .ok r ∧ p r = true := by
+  cases e with
+  | ok r => exact ⟨r, rfl, h⟩
+  | error _ => cases h
+
+example : ∃ r, fit wPlain wS0 [(.len, .flag false)] (.value 2) (.flag true) wIG .none true [1, 2] [1, 2]
+      ([[1]] ++ [[3 / 2]]) [3 / 2] = .ok r ∧
+      (decide (r.sill = some 2) && !punished wPlain r.para r.sill [3 / 2] &&
+        decide (r.st.var wPlain + r.st.nug = 2) && decide (r.para = ⟨true, false, false, []⟩)) = true :=
+  okAnd_spec (by decide +kernel)
+
+example : ∃ r, fit wFac wS0 [(.var, .flag false)] .none (.flag true) wIG .none true [1, 2] [1, 2]
+      ([[2, 0]] ++ [[1, 0]]) [1, 0] = .ok r ∧
+      (!punished wFac r.para r.sill [1, 0] && decide (r.dict.var = r.st.var wFac) &&
+        decide (r.st.var wFac = 2) && decide (r.para = ⟨false, true, true, []⟩)) = true :=
+  okAnd_spec (by decide +kernel)
+
+/-- noise-free data: the curve values at popt as data give r2 = 1 on the rational model too -/
+example : ∃ r, fit wPlain wS0 [] .none (.flag true) wIG .none true [1, 2] [17 / 8, 5 / 2]
+      ([[1, 1, 1]] ++ [[3 / 2, 4, 7 / 4]]) [3 / 2, 4, 7 / 4] = .ok r ∧
+      (decide (r.outs.getLast? = some (some [17 / 8, 5 / 2])) && decide (r.r2 = 1)) = true :=
+  okAnd_spec (by decide +kernel)
+
+end witnesses
 
 end GSV.Props.C10
